@@ -1,6 +1,7 @@
 mod c20;
+mod c21;
 mod util;
 
 fn main() {
-    vmon::run_main(&[("C20", c20::run)]);
+    vmon::run_main(&[("C20", c20::run), ("C21", c21::run)]);
 }
